@@ -162,9 +162,29 @@ class NameLookupRewriteVisitor(NodeTransformerBase):
         if isinstance(node.ctx, ast.Param):
             scope.add(node.id)
             return node
-        if node.id not in scope:
+        if not any(node.id in scope for scope in self.scopes):
             return self.apply_transform(node)
         return node
+
+    def visit_ListComp(self, node: ast.AST) -> ast.AST:
+        # The targets are local to the comprehension; only the first
+        # iterable is evaluated in the enclosing scope.
+        first = node.generators[0]  # type: ignore[attr-defined]
+        iterable = self.visit(first.iter)
+        first.iter = ast.Constant(None)
+        self.scopes.append({
+            name.id
+            for generator in node.generators  # type: ignore[attr-defined]
+            for name in ast.walk(generator.target)
+            if isinstance(name, ast.Name)
+        })
+        try:
+            return super().generic_visit(node)
+        finally:
+            self.scopes.pop()
+            first.iter = iterable
+
+    visit_SetComp = visit_DictComp = visit_GeneratorExp = visit_ListComp
 
     def visit_FunctionDef(self, node: ast.FunctionDef) -> ast.AST:
         self.scopes[-1].add(node.name)
